@@ -176,6 +176,7 @@ class Graph:
     def __init__(self):
         self.ids = {}
         self.inits = []      # (node, obs)
+        self.init_state = {} # node -> exported State record of an initial state
         self.out = {}        # node -> list of edge idx
         self.edges = []      # (from, act, to, obs, viol)
 
@@ -194,7 +195,9 @@ class Graph:
         g = cls()
         for line in open(run.inits_path):
             d = json.loads(line)
-            g.inits.append((g.node(d["init"]), d["obs"]))
+            n = g.node(d["init"])
+            g.inits.append((n, d["obs"]))
+            g.init_state[n] = d["init"]
         seen = set()
         for line in open(run.edges_path):
             d = json.loads(line)
@@ -293,7 +296,8 @@ def write_paths(g, paths, fn):
         for i, p in enumerate(paths):
             start = g.edges[p[0]][0]
             steps = [{"act": g.edges[e][1], "obs": g.edges[e][3], "viol": g.edges[e][4]} for e in p]
-            f.write(json.dumps({"id": i, "init_obs": init_obs.get(start), "steps": steps},
+            f.write(json.dumps({"id": i, "init_obs": init_obs.get(start),
+                                "init": g.init_state.get(start), "steps": steps},
                                separators=(",", ":")) + "\n")
 
 
@@ -411,11 +415,12 @@ def match_known(known, prop_id, name, labels):
 # Evidence
 # --------------------------------------------------------------------------
 def write_evidence(prop_id, tier, seed, level, coverage, assumptions, wall, violations):
-    os.makedirs(os.path.join(VERIF, "evidence"), exist_ok=True)
+    evdir = os.environ.get("VERIF_EVIDENCE_DIR", os.path.join(VERIF, "evidence"))
+    os.makedirs(evdir, exist_ok=True)
     ev = {"property_id": prop_id, "tier": tier, "seed": seed, "level": level,
           "coverage": coverage, "assumptions": assumptions, "wall_s": round(wall, 2),
           "violations": violations}
-    fn = os.path.join(VERIF, "evidence", prop_id + ".json")
+    fn = os.path.join(evdir, prop_id + ".json")
     tmp = fn + ".tmp"
     json.dump(ev, open(tmp, "w"), indent=1)
     os.replace(tmp, fn)
@@ -423,7 +428,7 @@ def write_evidence(prop_id, tier, seed, level, coverage, assumptions, wall, viol
 
 
 def save_replay(prop_id, obj):
-    d = os.path.join(VERIF, "replays")
+    d = os.environ.get("VERIF_REPLAY_DIR", os.path.join(VERIF, "replays"))
     os.makedirs(d, exist_ok=True)
     h = hashlib.sha1(json.dumps(obj, sort_keys=True).encode()).hexdigest()[:10]
     fn = os.path.join(d, "%s-%s.json" % (prop_id, h))
